@@ -60,7 +60,7 @@ func (actScen) Gen(r *Rng, cfg GenConfig) any {
 	for i, n := range names {
 		t := TaskDef{Name: n, NCmd: Pick(r, []int{0, 1, 1, 2})}
 		if r.Chance(1, 2) {
-			t.Doc = Pick(r, []string{"Build the " + n + " thing", "doc", "Runs   tests", "x"})
+			t.Doc = Pick(r, []string{"Build the " + n + " thing", "doc", "Runs   tests", "x", "Fail when coverage drops below 80%", "100% speed %s %d %v", "uses {{.NAME}} and $HOME", "a\\tb \\n c", "ünï côdé"})
 		}
 		if r.Chance(1, 2) {
 			t.Deps = append(t.Deps, Dep{"file", Pick(r, []string{"a.txt", "b.txt"})})
@@ -78,7 +78,7 @@ func (actScen) Gen(r *Rng, cfg GenConfig) any {
 	}
 	c.Prog.Tasks = Shuffled(r, c.Prog.Tasks)
 	for _, vn := range Subset(r, []string{"VERSION", "NAME", "TARGET"}, 1, 2) {
-		c.Prog.Vars = append(c.Prog.Vars, VarDef{Name: vn, Kind: "str", Args: []string{Pick(r, []string{"1.2.3", "hello world", "x", "a/b", "k=v", "=lead", "-X a=b -Y c=d", "trail="})}})
+		c.Prog.Vars = append(c.Prog.Vars, VarDef{Name: vn, Kind: "str", Args: []string{Pick(r, []string{"1.2.3", "hello world", "x", "a/b", "k=v", "=lead", "-X a=b -Y c=d", "trail=", "100%", "%s and %d"})}})
 	}
 	c.Prog.Layout = r.Intn(6)
 	c.Tree["a.txt"], c.Tree["b.txt"] = "1", "1"
